@@ -39,6 +39,11 @@ pub struct CaseReport {
     pub counters: Vec<(&'static str, u64)>,
     /// how many evaluations of the oracle this case stands for (default 1)
     pub evaluations: u64,
+    /// failures inside this case that match an OPEN known finding (signature, detail); the
+    /// engine went on past them
+    pub known: Vec<(String, String)>,
+    /// distinct non-trivial sub-cases inside this case (hashes), for enumerating engines
+    pub sub_hashes: Vec<u64>,
 }
 
 pub trait Engine {
@@ -220,6 +225,12 @@ pub fn campaign<E: Engine>(
         for (k, v) in &cr.counters {
             *rep.counters.entry((*k).to_string()).or_insert(0) += *v;
         }
+        for (k, d) in &cr.known {
+            *rep.known_hits.entry(k.clone()).or_insert(0) += 1;
+            let what = known.open.get(k).cloned().unwrap_or_default();
+            rep.known_examples.entry(k.clone()).or_insert_with(|| format!("{what} [{d}]"));
+        }
+        rep.nontrivial_hashes.extend(cr.sub_hashes.iter().copied());
         if cr.nontrivial && cr.failure.is_none() {
             let fresh = rep.nontrivial_hashes.insert(cr.hash);
             if fresh && rep.samples.len() < 3 {
